@@ -161,6 +161,9 @@ decode2 = Contract("C06.AlphabetEncoding._decode[2 symbolic symbols]", target=la
                    canaries=[("lookup instead of alphabet", "return self._alphabet[array]", "return self._lookup[array]")])
 
 CONTRACTS = [init1, init2, init4, encode2, decode2]
+from contracts import thorough as _thorough      # noqa: E402
+if _thorough():
+    CONTRACTS += [_mk(3), _mk(6)]
 
 
 # --- numeric encodings by offset (DigitEncoding, QualityEncoding, CigarEncoding): DigitEncodingFactory._encode / _decode --------------------
